@@ -483,7 +483,8 @@ impl HttpServer {
     /// Note that this function can block the thread on write, since the
     /// operation is blocking.
     pub fn flush_outgoing_writes(&mut self) {
-        for (_, connection) in self.connections.iter_mut() {
+        for (rawfd, connection) in self.connections.iter_mut() {
+            let was_outgoing = connection.state == ClientConnectionState::AwaitingOutgoing;
             while connection.state == ClientConnectionState::AwaitingOutgoing {
                 if let Err(e) = connection.write() {
                     if let ServerError::ConnectionError(ConnectionError::InvalidWrite) = e {
@@ -492,6 +493,16 @@ impl HttpServer {
                     }
                     break;
                 }
+            }
+            // If everything was written, wait for incoming bytes again, exactly as
+            // `requests()` does after the last write; otherwise the next poll is notified
+            // that a connection with nothing to send is writable.
+            if was_outgoing && connection.state == ClientConnectionState::AwaitingIncoming {
+                let _ = Self::epoll_mod(
+                    &self.epoll,
+                    *rawfd,
+                    epoll::EventSet::IN | epoll::EventSet::READ_HANG_UP,
+                );
             }
         }
     }
